@@ -1,4 +1,5 @@
 //! dv – property-based verification driver for iroh-docs (see /verif/DESIGN.md).
+mod act;
 mod common;
 mod engine;
 mod gen;
@@ -14,6 +15,12 @@ macro_rules! for_props {
         for_props!(@go $id, $p, $body, [
             props::c01::C01,
             props::c02::C02,
+            props::c16::C16,
+            props::c07::C07,
+            props::c15::C15,
+            props::c18::C18,
+            props::c17::C17,
+            props::c13::C13,
             props::c05::C05,
         ])
     }};
